@@ -29,7 +29,7 @@
 //!     of=<i>:<offset>,..                offset(MatrixCoordinates { row: i % rows, col: i / rows })
 //!     cv=ok|<what differs>              From/AsRef/Deref/Default conversions of Scores / StripedScores
 //!   HISTORY cases (`hist=1`): one reused `StripedScores` buffer driven through a list of calls
-//!     <id> hist=1 C=<c> pad=<hex> ms=<abc>:<row;row;..>|.. qs=<abc>:<wrap>:<letters>|.. ops=<op>,<op>,..
+//!     <id> hist=1 C=<c> pad=<hex> ms=<abc>:<row;row;..>|.. qs=<abc>:<wrap>:<letters>[:new.<extra>.<pad letters>]|.. ops=<op>,<op>,..
 //!     op = S.<p>.<mi>.<qi>        pli.score_into(&ms[mi], &qs[qi], &mut scores)
 //!        | R.<p>.<mi>.<qi>.<a>.<b> pli.score_rows_into(&ms[mi], &qs[qi], a..b, &mut scores)
 //!        | Z.<rows>.<max_index>    scores.resize(rows, max_index)
@@ -154,17 +154,7 @@ fn parse_case(line: &str) -> (String, Case) {
         pos: list(&f["pos"]),
         idx: list(&f["idx"]),
         itops: f.get("it").cloned().filter(|x| x != "-").unwrap_or_default(),
-        src: match f.get("src").map(|s| s.as_str()) {
-            None | Some("stripe") => Src::Stripe,
-            Some(s) => {
-                let p: Vec<&str> = s.split('.').collect();
-                match p[0] {
-                    "new" => Src::New(p[1].parse().unwrap(), p[2].to_string()),
-                    "sample" => Src::Sample(p[1].parse().unwrap()),
-                    _ => panic!("unknown src"),
-                }
-            }
-        },
+        src: parse_src(f.get("src").map(|s| s.as_str())),
         len: f.get("L").and_then(|x| x.parse().ok()).unwrap_or(0),
     };
     (id, case)
@@ -396,7 +386,7 @@ struct Hist {
     c: usize,
     pad: u32,
     ms: Vec<(String, Vec<Vec<u32>>)>,
-    qs: Vec<(String, usize, String)>,
+    qs: Vec<(String, usize, String, Src)>,
     ops: Vec<Vec<String>>,
 }
 
@@ -424,11 +414,12 @@ fn parse_hist(line: &str) -> Hist {
     let qs = f["qs"]
         .split('|')
         .map(|q| {
-            let mut it = q.splitn(3, ':');
+            let mut it = q.splitn(4, ':');
             let abc = it.next().unwrap().to_string();
             let wrap = it.next().unwrap().parse().unwrap();
             let seq = it.next().unwrap();
-            (abc, wrap, if seq == "-" { String::new() } else { seq.to_string() })
+            let src = parse_src(it.next());
+            (abc, wrap, if seq == "-" { String::new() } else { seq.to_string() }, src)
         })
         .collect();
     Hist {
@@ -452,10 +443,10 @@ fn build_typed<A: Alphabet, C: Cols<A>>(h: &Hist, abc: &str, out: &mut Vec<Strin
         .map(|(a, rows)| if a == abc { Some(make_pssm::<A>(rows, h.pad)) } else { None })
         .collect();
     let mut qs = vec![];
-    for (j, (a, wrap, seq)) in h.qs.iter().enumerate() {
+    for (j, (a, wrap, seq, src)) in h.qs.iter().enumerate() {
         if a == abc {
             let enc = EncodedSequence::<A>::encode(seq).expect("generated sequences are valid");
-            let mut striped: StripedSequence<A, C> = <C as Cols<A>>::stripe(&enc);
+            let mut striped: StripedSequence<A, C> = build_striped::<A, C>(&enc, src, seq.len());
             striped.configure_wrap(*wrap);
             out.push(show_striped(&format!("q{}", j), &striped));
             qs.push(Some(striped));
@@ -581,13 +572,12 @@ fn run_hist(h: &Hist) -> String {
     }
 }
 
-fn run_cols<A: Alphabet, C: Cols<A>>(case: &Case) -> String {
-    let pssm = make_pssm::<A>(&case.pssm, case.pad);
-
-    let enc = EncodedSequence::<A>::encode(&case.seq).expect("generated sequences are valid");
-    let mut striped: StripedSequence<A, C> = match &case.src {
-        Src::Stripe => C::stripe(&enc),
-        // any matrix with rows * C >= L is accepted: more rows than needed, padding that is not the wildcard
+/// the striped sequence of a case: Stripe::stripe / to_striped, StripedSequence::new on a hand-made matrix
+/// (any matrix with rows * C >= L is accepted: more rows than needed, padding that is not the wildcard), or
+/// StripedSequence::sample
+fn build_striped<A: Alphabet, C: Cols<A>>(enc: &EncodedSequence<A>, src: &Src, len: usize) -> StripedSequence<A, C> {
+    match src {
+        Src::Stripe => C::stripe(enc),
         Src::New(extra, letters) => {
             let syms: &[A::Symbol] = enc.as_ref();
             let l = syms.len();
@@ -602,9 +592,30 @@ fn run_cols<A: Alphabet, C: Cols<A>>(case: &Case) -> String {
         }
         Src::Sample(seed) => {
             use rand::SeedableRng;
-            StripedSequence::<A, C>::sample(rand::rngs::StdRng::seed_from_u64(*seed), Background::uniform(), case.len)
+            StripedSequence::<A, C>::sample(rand::rngs::StdRng::seed_from_u64(*seed), Background::uniform(), len)
         }
-    };
+    }
+}
+
+fn parse_src(s: Option<&str>) -> Src {
+    match s {
+        None | Some("stripe") | Some("") => Src::Stripe,
+        Some(s) => {
+            let p: Vec<&str> = s.split('.').collect();
+            match p[0] {
+                "new" => Src::New(p[1].parse().unwrap(), p[2].to_string()),
+                "sample" => Src::Sample(p[1].parse().unwrap()),
+                _ => panic!("unknown src"),
+            }
+        }
+    }
+}
+
+fn run_cols<A: Alphabet, C: Cols<A>>(case: &Case) -> String {
+    let pssm = make_pssm::<A>(&case.pssm, case.pad);
+
+    let enc = EncodedSequence::<A>::encode(&case.seq).expect("generated sequences are valid");
+    let mut striped: StripedSequence<A, C> = build_striped::<A, C>(&enc, &case.src, case.len);
     let lq: Option<String> = match &case.src {
         Src::Stripe => None,
         _ => Some(
@@ -915,7 +926,7 @@ fn gen_hist(rng: &mut Rng, id: usize, tier: &str) -> String {
     // shorter than a motif, sometimes the empty sequence
     let base_r = 1 + rng.below(if thorough { 6 } else { 4 }) as usize;
     let nq = 2 + rng.below(3) as usize;
-    let mut qs: Vec<(&str, usize, usize, String)> = vec![];
+    let mut qs: Vec<(&str, usize, usize, String, Option<(usize, String)>)> = vec![];
     for i in 0..nq {
         let abc = if i == 0 { main_abc } else { abc_of(rng) };
         let (alpha, k) = if abc == "dna" { (DNA, 5usize) } else { (PROT, 21usize) };
@@ -943,7 +954,15 @@ fn gen_hist(rng: &mut Rng, id: usize, tier: &str) -> String {
                 alpha.as_bytes()[s] as char
             })
             .collect();
-        qs.push((abc, wrap, l, seq));
+        // 15 %: built by StripedSequence::new with 0..2 extra rows and padding that is not the wildcard
+        let qsrc = if rng.chance(15, 100) {
+            let extra = *rng.pick(&[0usize, 0, 1, 2]);
+            let pat: String = (0..1 + rng.below(5) as usize).map(|_| alpha.as_bytes()[rng.below(k as u64 - 1) as usize] as char).collect();
+            Some((extra, pat))
+        } else {
+            None
+        };
+        qs.push((abc, wrap, l, seq, qsrc));
     }
     // operations
     let pipes: &[&str] = if c == 32 { &["g", "s", "a", "dg", "ds", "da", "s", "a"] } else { &["g", "s", "s"] };
@@ -963,7 +982,7 @@ fn gen_hist(rng: &mut Rng, id: usize, tier: &str) -> String {
                 }
                 let mi = *rng.pick(&cands);
                 let p = *rng.pick(pipes);
-                let r = (qs[qi].2 + c - 1) / c;
+                let r = (qs[qi].2 + c - 1) / c + qs[qi].4.as_ref().map(|x| x.0).unwrap_or(0);
                 let total = r + qs[qi].1;
                 if kind <= 37 {
                     ops.push(format!("S.{}.{}.{}", p, mi, qi));
@@ -1017,7 +1036,15 @@ fn gen_hist(rng: &mut Rng, id: usize, tier: &str) -> String {
             .collect::<Vec<_>>()
             .join("|"),
         qs.iter()
-            .map(|q| format!("{}:{}:{}", q.0, q.1, if q.3.is_empty() { "-" } else { q.3.as_str() }))
+            .map(|q| {
+                format!(
+                    "{}:{}:{}{}",
+                    q.0,
+                    q.1,
+                    if q.3.is_empty() { "-" } else { q.3.as_str() },
+                    q.4.as_ref().map(|x| format!(":new.{}.{}", x.0, x.1)).unwrap_or_default()
+                )
+            })
             .collect::<Vec<_>>()
             .join("|"),
         ops.join(",")
